@@ -222,6 +222,8 @@ BlockVerdicts(r) ==
                                       \/ DOMAIN ppm # DOMAIN e.pools \/ \E k \in DOMAIN ppm \cap DOMAIN e.pools : ppm[k].l # e.pools[k].l \/ ppm[k].r # e.pools[k].r \/ ppm[k].liqs # e.pools[k].liqs
                                       \/ StakeMap(r.post) # Merge(StakeMap(r.basis), NewStakes(b, r.basis.net, r.basis.height)))
                      THEN {V("C06", "the state returned by apply_block is not the result of applying the block's transactions and proposer action to the parent and sealing (" \o r.x.mut \o ")", "")}
+                          \cup (IF r.post.feeMult # e.feeMult
+                                THEN {V("C17", "the fee multiplier of the state returned by apply_block is not: previous + trunc(max(m/128, 2) * delta / 128) (" \o r.x.mut \o ")", "")} ELSE {})
                      ELSE {}
              ELSE {})
        \cup (IF ok THEN StateVerdicts(r.post) \cup PoolVerdicts(r.post) \cup HeaderVerdicts(r.post) ELSE {})
